@@ -15,7 +15,8 @@ pub struct Case {
     /// None = borrowing reader, Some(piece size) = chunked buffered reader (first piece >= 4)
     pub piece: Option<u8>,
     /// inject a byte sequence that is malformed in the encoding: 0 none, 1 into the text,
-    /// 2 into the root attribute value
+    /// 2 into the root attribute value, 3 a dangling lead byte as the last byte of the text,
+    /// 4 a dangling lead byte as the last byte of the attribute value
     pub malformed: u8,
     /// 0 normal; 1 = Reader::from_str on the UTF-8 original whose declaration names `encoding`
     pub from_str: bool,
@@ -63,6 +64,8 @@ mod imp {
         pub chars: Vec<char>,
         /// a byte sequence that does not decode in this encoding (if one exists)
         pub malformed: Option<Vec<u8>>,
+        /// a single byte that cannot end a payload (dangling lead byte of a multi-byte sequence)
+        pub dangling: Option<u8>,
     }
 
     fn candidates() -> Vec<char> {
@@ -122,7 +125,18 @@ mod imp {
                         }
                     }
                 }
-                m.insert(enc.name(), Pool { enc, chars, malformed });
+                let mut dangling = None;
+                for b1 in 0x81..=0xFEu8 {
+                    let alone = enc.decode_without_bom_handling_and_without_replacement(&[b1]).is_none();
+                    let after = enc.decode_without_bom_handling_and_without_replacement(&[b'x', b1]).is_none();
+                    // it must really be a lead byte: followed by a valid trail byte it decodes
+                    let lead = (0x40..=0xFEu8).any(|t| enc.decode_without_bom_handling_and_without_replacement(&[b1, t]).is_some());
+                    if alone && after && lead {
+                        dangling = Some(b1);
+                        break;
+                    }
+                }
+                m.insert(enc.name(), Pool { enc, chars, malformed, dangling });
             }
             m
         })
@@ -230,7 +244,16 @@ mod imp {
         }
         bytes.extend_from_slice(&encoded);
         let mut malformed_where = 0u8;
-        if c.malformed > 0 {
+        if c.malformed >= 3 {
+            // a dangling lead byte as the LAST byte of the text (3) / of the attribute value (4)
+            if let Some(b) = pool.dangling {
+                let needle: Vec<u8> = if c.malformed == 3 { b"<!--".to_vec() } else { b"\">t".to_vec() };
+                if let Some(p) = bytes.windows(needle.len()).position(|w| w == &needle[..]) {
+                    bytes.insert(p, b);
+                    malformed_where = if c.malformed == 3 { 1 } else { 2 };
+                }
+            }
+        } else if c.malformed > 0 {
             if let Some(seq) = &pool.malformed {
                 let needle: &[u8] = if c.malformed == 1 { b">t" } else { b"a=\"" };
                 if let Some(p) = bytes.windows(needle.len()).position(|w| w == needle) {
@@ -266,6 +289,11 @@ mod imp {
                     };
                     let payload: Vec<u8> = ev.to_vec();
                     let decoded = dec.decode(&payload).map(|s| s.into_owned()).map_err(|e| e.to_string());
+                    let mut into = String::from("#");
+                    let decoded_into = dec.decode_into(&payload, &mut into).map(|_| into[1..].to_string()).map_err(|e| e.to_string());
+                    if decoded.is_ok() != decoded_into.is_ok() || (decoded.is_ok() && decoded.as_ref().ok() != decoded_into.as_ref().ok()) {
+                        return Verdict::fail(format!("Decoder::decode gives {:?} but Decoder::decode_into gives {:?} for payload {:?} in {}", decoded, decoded_into, B::show(&payload), enc.name()));
+                    }
                     let mut attrs = vec![];
                     let (kind, unescaped) = match &ev {
                         Event::Start(s) | Event::Empty(s) => {
@@ -386,7 +414,7 @@ mod imp {
             n.sort();
             n
         };
-        ctx.note_stage("encodings", serde_json::json!({"count": names.len(), "pool_sizes": names.iter().map(|n| (n.to_string(), pools()[n].chars.len())).collect::<Vec<_>>(), "with_malformed_sequence": names.iter().filter(|n| pools()[*n].malformed.is_some()).count()}));
+        ctx.note_stage("encodings", serde_json::json!({"count": names.len(), "pool_sizes": names.iter().map(|n| (n.to_string(), pools()[n].chars.len())).collect::<Vec<_>>(), "with_malformed_sequence": names.iter().filter(|n| pools()[*n].malformed.is_some()).count(), "with_dangling_lead_byte": names.iter().filter(|n| pools()[*n].dangling.is_some()).count()}));
         let per = ctx.tier.pick(10_000u64, 150_000);
         let seed = ctx.seed;
         let names2 = names.clone();
@@ -403,7 +431,7 @@ mod imp {
                     *p = (0..n).map(|_| r.next() as u16).collect();
                 }
                 let mode = r.below(10);
-                Some(Case { encoding: enc.to_string(), parts, decl: r.chance(3, 4), bom: r.chance(1, 3), piece: if r.chance(1, 2) { None } else { Some(r.below(8) as u8) }, malformed: if mode < 2 { 1 + (mode as u8) } else { 0 }, from_str: mode == 9 })
+                Some(Case { encoding: enc.to_string(), parts, decl: r.chance(3, 4), bom: r.chance(1, 3), piece: if r.chance(1, 2) { None } else { Some(r.below(8) as u8) }, malformed: if mode < 4 { 1 + (mode as u8) } else { 0 }, from_str: mode == 9 })
             },
             check,
         );
@@ -411,8 +439,8 @@ mod imp {
         let strat = move || {
             let names3 = names3.clone();
             Box::new(
-                (prop::sample::select(names3), prop::array::uniform7(prop::collection::vec(any::<u16>(), 0..6)), any::<bool>(), any::<bool>(), prop::option::of(0u8..8), 0u8..6, prop::bool::weighted(0.1))
-                    .prop_map(|(enc, parts, decl, bom, piece, m, from_str)| Case { encoding: enc.to_string(), parts, decl, bom, piece, malformed: if m < 3 { m } else { 0 }, from_str }),
+                (prop::sample::select(names3), prop::array::uniform7(prop::collection::vec(any::<u16>(), 0..6)), any::<bool>(), any::<bool>(), prop::option::of(0u8..8), 0u8..9, prop::bool::weighted(0.1))
+                    .prop_map(|(enc, parts, decl, bom, piece, m, from_str)| Case { encoding: enc.to_string(), parts, decl, bom, piece, malformed: if m < 5 { m } else { 0 }, from_str }),
             )
         };
         ctx.run_proptest_with("proptest-documents", ctx.tier.pick(500_000, 5_000_000), strat, check);
